@@ -319,7 +319,7 @@ MANIFEST = dict(
          '(comments with quotes, blanks, UTF-8, backslash); every private export path available in this sandbox (unencrypted OpenSSH/PKCS#1/PKCS#8, '
          'PKCS#1-PEM with 5 ciphers, PKCS#8 PBES1 and PKCS#12 schemes, PBES2 with 6 ciphers x 3 PRFs) re-imports to an equal key and rejects a wrong or '
          'missing passphrase; the PKCS#12 key derivation equals an independently written RFC 7292 appendix B for all output lengths up to three digest '
-         'blocks; DER values round-trip canonically at every integer byte-length boundary; SSH public blobs have the RFC layouts.',
+         'blocks; DER values round-trip canonically at every integer byte-length boundary; SSH public blobs have the RFC layouts; PBES2 and PBES1/PKCS#12 encrypted PKCS#8 exports are decoded by an independent implementation (PyCA cryptography) and its output is imported back.',
     note='The solver only ranges over the path choices: key material and ciphers are C code (PyCA) executed concretely. Encrypted OpenSSH-format private '
          'keys (bcrypt missing) and agreement with ssh-keygen / PyCA loaders / OpenSSL are NOT checked - the interoperability clause of C15 is '
          'covered only through the two independent references named above. Trusted: PyCA, hashlib, CrossHair, z3, the references in props/C15.py.')
